@@ -299,6 +299,30 @@ func (g *gen) conflictFree(nyct, alerts bool) *gtfsrt.FeedMessage {
 		ny := nyct && g.coin(0.6)
 		trips = append(trips, &tripPlan{td: g.tripDesc(rtTripIDs[ids[i]], ny), veh: -1, nyct: ny})
 	}
+	// siblings: distinct trips that agree on trip id, route, direction and start time and differ only in the start date
+	// (absent / another day) or in the schedule relationship: the identifier order must still separate them
+	if nTrips > 0 && !nyct && g.coin(0.35) {
+		base := trips[g.r.Intn(len(trips))].td
+		seen := map[string]bool{base.GetStartDate() + "|" + base.GetScheduleRelationship().String(): true}
+		for k := 1 + g.r.Intn(3); k > 0; k-- {
+			sib := proto.Clone(base).(*gtfsrt.TripDescriptor)
+			switch g.r.Intn(3) {
+			case 0:
+				sib.StartDate = nil
+			case 1:
+				sib.StartDate = ptr(g.pick([]string{"20240101", "20240102", "20231231"}))
+			default:
+				sib.ScheduleRelationship = gtfsrt.TripDescriptor_ScheduleRelationship(g.r.Intn(4)).Enum()
+			}
+			key := sib.GetStartDate() + "|" + sib.GetScheduleRelationship().String()
+			if sib.StartDate == nil && base.StartDate != nil || sib.StartDate != nil {
+				if !seen[key] {
+					seen[key] = true
+					trips = append(trips, &tripPlan{td: sib, veh: -1})
+				}
+			}
+		}
+	}
 	nVeh := g.r.Intn(5)
 	type vehPlan struct {
 		desc *gtfsrt.VehicleDescriptor // nil = no descriptor at all
@@ -311,7 +335,11 @@ func (g *gen) conflictFree(nyct, alerts bool) *gtfsrt.FeedMessage {
 		case 0:
 			vp.desc = nil
 		case 1:
-			vp.desc = &gtfsrt.VehicleDescriptor{Label: ptr(fmt.Sprintf("label-only-%d", i))}
+			if g.coin(0.5) {
+				vp.desc = &gtfsrt.VehicleDescriptor{Label: ptr(fmt.Sprintf("label-only-%d", i))}
+			} else { // a licence plate alone identifies a vehicle too
+				vp.desc = &gtfsrt.VehicleDescriptor{LicensePlate: ptr(fmt.Sprintf("PLATE-%d", i))}
+			}
 		default:
 			vp.desc = g.vehDesc(fmt.Sprintf("v%d", i))
 		}
